@@ -343,6 +343,9 @@ def forward_refs(fn):
             sp = src.get("p") or []
             if not sp:
                 res = resolve(src["l"], depth + 1)
+            elif sp and all(isinstance(e_, dict) and "f" in e_ for e_ in sp) and 1 <= src["l"] <= argc and src["l"] not in ndefs and src["l"] not in partial:
+                # `_x = copy env.i` with `env` a never-assigned by-value parameter (a closure environment): `_x` points to `*(env.i)`
+                res = {"l": src["l"], "p": list(sp) + ["deref"]}
             elif len(sp) == 1 and isinstance(sp[0], dict) and "f" in sp[0] and str(sp[0]["f"]).isdigit():
                 # `_x = copy env.i` where env is (a move of) a single-definition tuple / closure environment built from reference `q`
                 a = src["l"]
@@ -1087,7 +1090,7 @@ class NumAnalysis:
                 st.z.set_interval(lv, max(0, st.z.lo(lv)), st.z.hi(lv))
                 st.bools[dv] = ("Eq", lv, ("c", 0))
             return
-        m_sl = re.match(r"^core::slice::<impl \[T\]>::(get|first|last)(?:_mut)?$", callee)
+        m_sl = re.match(r"^core::slice::<impl \[T\]>::(get|first|last|split_first|split_last)(?:_mut)?$", callee)
         if m_sl and args and discr_var(dpl) is not None:
             return self.slice_option_call(st, b, c, m_sl.group(1), args, dpl)
         if re.search(r"^<std::option::Option<T> as std::ops::Try>::branch$", callee) and len(args) == 1:
@@ -1457,7 +1460,7 @@ class NumAnalysis:
         none = st.copy()
         res_len = None
         diff_of = None
-        if which in ("first", "last"):
+        if which in ("first", "last", "split_first", "split_last"):
             self.assume_le(st, one, base, 0)        # Some: 1 <= len
             self.assume_le(none, base, one, -1)     # None: len <= 0
         else:
@@ -1467,6 +1470,36 @@ class NumAnalysis:
                 ix = self.ev_operand(st, args[1])
                 self.assume_le(st, ix, base, -1)    # Some: i < len
                 self.assume_le(none, base, self.ev_operand(none, args[1]), 0)
+            elif rj is not None and aty.split("<")[0] == "std::ops::Range":
+                # `get(a..b)`: Some exactly when a <= b and b <= len; the None outcome is one state per violated condition
+                rpl = mk_place(rj)
+
+                def fld2(s_, name):
+                    v = ("v", rpl[0], rpl[1] + (("f", name),))
+                    return dict(lo=max(0, s_.z.lo(v)), hi=min(2**64 - 1, s_.z.hi(v)), rel=[(v, 0, 0)])
+                none2 = none.copy()
+                s0, e0 = fld2(st, "start"), fld2(st, "end")
+                self.assume_le(st, s0, e0, 0)
+                self.assume_le(st, e0, base, 0)
+                self.assume_le(none, fld2(none, "end"), fld2(none, "start"), -1)      # end < start
+                self.assume_le(none2, self.ev_len_of_ref(none2, args[0]), fld2(none2, "end"), -1)  # len < end
+                dlo, dhi = self.diff_bounds(st, e0, s0)
+                rel = []
+                if s0["lo"] == s0["hi"]:
+                    rel = [(v, (lo_ - s0["lo"]) if lo_ is not None else None, (hi_ - s0["lo"]) if hi_ is not None else None) for v, lo_, hi_ in e0["rel"]]
+                res_len = dict(lo=max(0, dlo), hi=dhi, rel=rel)
+                st.z.set_interval(dv, 1, 1)
+                if is_slice_ref(_option_payload(self.place_ty(c["dest"])) or ""):
+                    self.assign_int(st, ("len",) + pay, res_len, None, clamp=False)
+                out = []
+                for n_ in (none, none2):
+                    n_.z.set_interval(dv, 0, 0)
+                    if not n_.z.bottom:
+                        out.append(n_)
+                if st.z.bottom and out:
+                    n_ = out.pop()
+                    st.z, st.bools, st.pend = n_.z, n_.bools, n_.pend
+                return out
             elif rj is not None and re.match(r"^std::ops::Range(From|To|Full)?<?", aty) and aty.split("<")[0].split("::")[-1] in ("RangeFrom", "RangeTo", "RangeFull"):
                 kind = aty.split("<")[0].split("::")[-1]
                 rpl = mk_place(rj)
